@@ -35,7 +35,19 @@ type replay struct {
 	Layout string `json:"layout,omitempty"`
 }
 
+var parseTurn int
+
 func parseShape(src string) (string, []*gen.Node, error) {
+	parseTurn++
+	if parseTurn%3 == 0 {
+		// the tree a parse returns belongs to the caller: whatever the caller does to it, a later parse of the same
+		// text yields the tree of the text again
+		if st, err, crash := impl.Parse("c06.p", src); err == nil && crash == nil {
+			for i := range st {
+				st[i] = nil
+			}
+		}
+	}
 	stmts, err, crash := impl.Parse("c06.p", src)
 	if crash != nil {
 		return "", nil, fmt.Errorf("parser panicked: %s", crash.Value)
